@@ -2,18 +2,26 @@
   C11 — property theorems about the elastic-constant model.  All tables, templates, formulas and the two
   `einsum`s are the *generated* ones (`Atomman/Generated/{VoigtTables,CrystalCij,IsoPairs}.lean`, rewritten from
   `atomman/core/ElasticConstants.py` on every run), so every theorem below is re-checked against the current source.
+
+  `K` is any linearly ordered field.  The 6x6 inverse and the square roots are parameters with hypotheses.
 -/
 import Proofs.C11_Lemmas
+import Proofs.C11_Crystal
+import Proofs.C11_Iso
+import Proofs.C11_Norm
 
 namespace Atomman.C11
 open Atomman.Gen
 set_option linter.unusedSectionVars false
 set_option linter.unusedSimpArgs false
 set_option linter.unusedVariables false
+set_option linter.unnecessarySeqFocus false
+set_option linter.unusedTactic false
+set_option linter.unreachableTactic false
 
 variable {K : Type} [Field K] [LinearOrder K] [IsStrictOrderedRing K]
 
-/-! ## one tensor behind the 6x6, 9x9 and 3x3x3x3 stiffness representations -/
+/-! ## one tensor behind the 6x6, 9x9 and 3x3x3x3 representations -/
 
 /-- the literal table of the `Cijkl` getter is the Voigt table. -/
 theorem cijkl_table_is_voigt (c : M6 K) (i j k l : Fin 3) :
@@ -25,10 +33,7 @@ theorem cij9_table_is_voigt (c : M6 K) (p q : Fin 9) :
     cij9Get c p q = cijklGet c (pair9 p).1 (pair9 p).2 (pair9 q).1 (pair9 q).2 := cij9Get_eq c p q
 
 /-- minor symmetries of `Cijkl` (for every stored 6x6). -/
-theorem minor_symm (c : M6 K) : MinorSymm (cijklGet c) := by
-  intro i j k l
-  simp only [cijklGet_eq]
-  exact ⟨by rw [voigt_symm i j], by rw [voigt_symm k l]⟩
+theorem minor_symm (c : M6 K) : MinorSymm (cijklGet c) := cijklGet_minor c
 
 /-- major symmetry of `Cijkl` for a symmetric stored 6x6 (the `Cij` setter asserts it). -/
 theorem major_symm (c : M6 K) (h : Symm6 c) : MajorSymm (cijklGet c) := by
@@ -49,7 +54,52 @@ theorem cijkl_roundtrip' (C : T4 K) (h : MinorSymm C) : cijklGet (cijklSetRaw C)
 
 example : MinorSymm (cijklGet (m6 (ctor_C11_C12_C44 (3 : ℚ) 1 2))) := minor_symm _
 
-/-! ## rotation is a group action -/
+/-- `Cij -> Cij9 -> Cij`: the upper-left 6x6 block of the 9x9 form is the stored matrix. -/
+theorem cij9_roundtrip (c : M6 K) (a b : Fin 6) :
+    cij9Get c ⟨a.val, by omega⟩ ⟨b.val, by omega⟩ = c a b := by
+  rw [cij9Get_eq, cijklGet_eq]
+  have h : ∀ a : Fin 6, pair9 ⟨a.val, by omega⟩ = pairOf a := by decide
+  rw [h a, h b, voigt_pairOf, voigt_pairOf]
+
+/-- the generated compliance weights: the getter divides by 1, 2, 4 and the setter multiplies by 1, 2, 4
+    according to the number of shear indices. -/
+theorem sijkl_weights (s : M6 K) (S : T4 K) :
+    (∀ i j k l, sijklGet s i j k l = s (voigt i j) (voigt k l) / ((mult (voigt i j) * mult (voigt k l) : ℕ) : K)) ∧
+    (∀ a b, sijklSetRaw S a b = ((mult a * mult b : ℕ) : K) * S (pairOf a).1 (pairOf a).2 (pairOf b).1 (pairOf b).2) :=
+  ⟨sijklGet_eq s, sijklSetRaw_eq S⟩
+
+/-- `Sij -> Sijkl -> Sij` is the identity. -/
+theorem sijkl_roundtrip (s : M6 K) : sijklSetRaw (sijklGet s) = s := by
+  funext a b
+  rw [sijklSetRaw_eq, sijklGet_eq, voigt_pairOf, voigt_pairOf]
+  have := mult_ne_zero (K := K) a
+  have := mult_ne_zero (K := K) b
+  push_cast; field_simp
+
+/-- `Sijkl -> Sij -> Sijkl` is the identity on tensors with the minor symmetries. -/
+theorem sijkl_roundtrip' (S : T4 K) (h : MinorSymm S) : sijklGet (sijklSetRaw S) = S := by
+  funext i j k l
+  rw [sijklGet_eq, sijklSetRaw_eq, minor_of_voigt S h i j k l]
+  have := mult_ne_zero (K := K) (voigt i j)
+  have := mult_ne_zero (K := K) (voigt k l)
+  push_cast; field_simp
+
+/-- stiffness contracted with compliance is the symmetric identity: from `C·S = 1` (6x6),
+    `Σ_kl C_ijkl S_klmn = ½(δ_im δ_jn + δ_in δ_jm)`. -/
+theorem stiffness_compliance_identity (c s : M6 K)
+    (hcs : ∀ a d : Fin 6, ∑ b, c a b * s b d = if a = d then 1 else 0) (i j m n : Fin 3) :
+    (sum3 fun k => sum3 fun l => cijklGet c i j k l * sijklGet s k l m n)
+      = ((if i = m ∧ j = n then 1 else 0) + (if i = n ∧ j = m then 1 else 0)) / 2 :=
+  contraction_of_inverse c s hcs i j m n
+
+example : ∀ a d : Fin 6, ∑ b, m6 (ctor_mu_K (2 : ℚ) 3) a b * isoS (2 : ℚ) 3 b d = if a = d then 1 else 0 :=
+  iso_mul_isoS 2 3 (by norm_num) (by norm_num)
+
+/-! ## rotation is a group action on the tensor -/
+
+/-- what the generated `einsum`s compute: `C'_ijkl = Σ T_ig T_jh T_km T_ln C_ghmn`. -/
+theorem transform_is_tensor_rotation (T : M33 K) (C : T4 K) (i j k l : Fin 3) :
+    rot T C i j k l = ∑ g, ∑ h, ∑ m, ∑ n, T i g * T j h * C g h m n * (T k m * T l n) := rot_apply T C i j k l
 
 /-- `transform` with the identity axes. -/
 theorem transform_id (C : T4 K) : rot mone C = C := rot_one C
@@ -59,5 +109,296 @@ theorem transform_comp (T₂ T₁ : M33 K) (C : T4 K) : rot T₂ (rot T₁ C) = 
 
 /-- rotating back with the transposed (= inverse) axes. -/
 theorem transform_inv (T : M33 K) (h : Orthogonal T) (C : T4 K) : rot (mtr T) (rot T C) = C := rot_inv h C
+
+example : Orthogonal (rotZ (3 / 5 : ℚ) (4 / 5)) := (rotZ_proper _ _ (by norm_num)).1
+
+/-- the rotated tensor keeps the minor and major symmetries. -/
+theorem transform_symm (T : M33 K) (C : T4 K) (hm : MinorSymm C) (hM : MajorSymm C) :
+    MinorSymm (rot T C) ∧ MajorSymm (rot T C) := ⟨rot_minor T hm, rot_major T hM⟩
+
+/-- strain-energy density of a co-rotated strain: `ε' = T ε Tᵀ ⇒ ε' : C' : ε' = ε : C : ε`. -/
+theorem energy_invariant (T : M33 K) (h : Orthogonal T) (C : T4 K) (e : M33 K) :
+    energy (rot T C) (conj T e) = energy C e := energy_rot T h C e
+
+/-- Voigt bulk and shear moduli of the rotated 6x6 equal those of the original (symmetric `c`, orthogonal `T`). -/
+theorem voigt_moduli_invariant (c : M6 K) (hc : Symm6 c) (T : M33 K) (h : Orthogonal T) :
+    bulkVoigt (cijklSetRaw (rot T (cijklGet c))) = bulkVoigt c ∧
+    shearVoigt (cijklSetRaw (rot T (cijklGet c))) = shearVoigt c := by
+  have hm := cijklGet_minor c
+  have hM := major_symm c hc
+  constructor
+  · rw [bulkVoigt_eq_tr _ (rot_major T hM), tr1_rot T h, ← bulkVoigt_eq_tr _ hM, cijkl_roundtrip]
+  · rw [shearVoigt_eq_tr _ (rot_minor T hm) (rot_major T hM), tr1_rot T h, tr2_rot T h,
+      ← shearVoigt_eq_tr _ hm hM, cijkl_roundtrip]
+
+/-! ## crystal systems: the generated template is fixed by the generating symmetry rotations -/
+
+/-- isotropic: every orthogonal map. -/
+theorem system_invariant_isotropic (lam mu : K) (T : M33 K) (h : Orthogonal T) :
+    rot T (cijklGet (m6 (ctor_C12_C44 lam mu))) = cijklGet (m6 (ctor_C12_C44 lam mu)) := iso_invariant T h lam mu
+
+/-- cubic: the four-fold axes `x`, `y`, `z` and the three-fold axis `[111]` (they generate the group `432`). -/
+theorem system_invariant_cubic (C11 C12 C44 : K) :
+    let C := cijklGet (m6 (ctor_C11_C12_C44 C11 C12 C44))
+    rot R4z C = C ∧ rot R4x C = C ∧ rot R4y C = C ∧ rot R3d C = C :=
+  ⟨cubic_R4z C11 C12 C44, cubic_R4x C11 C12 C44, cubic_R4y C11 C12 C44, cubic_R3d C11 C12 C44⟩
+
+/-- hexagonal: *every* rotation about `z` (indeed every orthogonal map with third column `e_z`), and the
+    two-fold axis `x`. -/
+theorem system_invariant_hexagonal (C11 C12 C13 C33 C44 : K) :
+    let C := cijklGet (m6 (ctor_C11_C12_C13_C33_C44 C11 C12 C13 C33 C44))
+    (∀ c s : K, c * c + s * s = 1 → rot (rotZ c s) C = C) ∧ rot R2x C = C :=
+  ⟨fun c s h => hex_invariant _ (rotZ_proper c s h).1 (rotZ_col c s) C11 C12 C13 C33 C44,
+   hex_R2x C11 C12 C13 C33 C44⟩
+
+/-- tetragonal (seven constants, classes 4, -4, 4/m): the four-fold axis `z`; with `C16` absent also the
+    two-fold axis `x`. -/
+theorem system_invariant_tetragonal (C11 C12 C13 C16 C33 C44 C66 : K) :
+    rot R4z (cijklGet (m6 (ctor_C11_C12_C13_C16_C33_C44_C66 C11 C12 C13 C16 C33 C44 C66)))
+      = cijklGet (m6 (ctor_C11_C12_C13_C16_C33_C44_C66 C11 C12 C13 C16 C33 C44 C66)) ∧
+    (let C := cijklGet (m6 (ctor_C11_C12_C13_C33_C44_C66 C11 C12 C13 C33 C44 C66))
+     rot R4z C = C ∧ rot R2x C = C) :=
+  ⟨tetragonal7_R4z C11 C12 C13 C16 C33 C44 C66, tetragonal6_R4z C11 C12 C13 C33 C44 C66,
+   tetragonal6_R2x C11 C12 C13 C33 C44 C66⟩
+
+/-- rhombohedral (seven constants): the three-fold axis `z` (`cos = -1/2`, `sin = r/2`, `r² = 3`); with `C15`
+    absent also the two-fold axis `x`. -/
+theorem system_invariant_rhombohedral (C11 C12 C13 C14 C15 C33 C44 r : K) (hr : r * r = 3) :
+    rot (rotZ (-1/2) (r/2)) (cijklGet (m6 (ctor_C11_C12_C13_C14_C15_C33_C44 C11 C12 C13 C14 C15 C33 C44)))
+      = cijklGet (m6 (ctor_C11_C12_C13_C14_C15_C33_C44 C11 C12 C13 C14 C15 C33 C44)) ∧
+    rot R2x (cijklGet (m6 (ctor_C11_C12_C13_C14_C33_C44 C11 C12 C13 C14 C33 C44)))
+      = cijklGet (m6 (ctor_C11_C12_C13_C14_C33_C44 C11 C12 C13 C14 C33 C44)) :=
+  ⟨rhombohedral_R3z C11 C12 C13 C14 C15 C33 C44 r hr, rhombohedral6_R2x C11 C12 C13 C14 C33 C44⟩
+
+/-- the three-fold rotation used above is a proper rotation. -/
+theorem three_fold_proper (r : K) (hr : r * r = 3) : ProperRot (rotZ (-1/2 : K) (r/2)) :=
+  rotZ_proper _ _ (by linear_combination (1/4 : K) * hr)
+
+/-- orthorhombic: the three two-fold axes. -/
+theorem system_invariant_orthorhombic (C11 C12 C13 C22 C23 C33 C44 C55 C66 : K) :
+    let C := cijklGet (m6 (ctor_C11_C12_C13_C22_C23_C33_C44_C55_C66 C11 C12 C13 C22 C23 C33 C44 C55 C66))
+    rot R2x C = C ∧ rot R2y C = C ∧ rot R2z C = C :=
+  ⟨orthorhombic_R2x C11 C12 C13 C22 C23 C33 C44 C55 C66, orthorhombic_R2y C11 C12 C13 C22 C23 C33 C44 C55 C66,
+   orthorhombic_R2z C11 C12 C13 C22 C23 C33 C44 C55 C66⟩
+
+/-- monoclinic (unique axis `y`): the two-fold axis `y`. -/
+theorem system_invariant_monoclinic (C11 C12 C13 C15 C22 C23 C25 C33 C35 C44 C46 C55 C66 : K) :
+    rot R2y (cijklGet (m6 (ctor_C11_C12_C13_C15_C22_C23_C25_C33_C35_C44_C46_C55_C66
+        C11 C12 C13 C15 C22 C23 C25 C33 C35 C44 C46 C55 C66)))
+      = cijklGet (m6 (ctor_C11_C12_C13_C15_C22_C23_C25_C33_C35_C44_C46_C55_C66
+        C11 C12 C13 C15 C22 C23 C25 C33 C35 C44 C46 C55 C66)) :=
+  monoclinic_R2y C11 C12 C13 C22 C23 C33 C44 C55 C66 C15 C25 C35 C46
+
+/-- all the rotations named above are proper rotations. -/
+theorem generators_proper :
+    ProperRot (R4z : M33 K) ∧ ProperRot (R4x : M33 K) ∧ ProperRot (R4y : M33 K) ∧ ProperRot (R3d : M33 K) ∧
+    ProperRot (R2x : M33 K) ∧ ProperRot (R2y : M33 K) ∧ ProperRot (R2z : M33 K) ∧
+    (∀ c s : K, c * c + s * s = 1 → ProperRot (rotZ c s)) :=
+  ⟨R4z_proper, R4x_proper, R4y_proper, R3d_proper, R2x_proper, R2y_proper, R2z_proper, rotZ_proper⟩
+
+/-- the alternative input combinations of `hexagonal` describe the same tensor (`2 C66 = C11 - C12`). -/
+theorem hexagonal_inputs_agree (C11 C12 C13 C33 C44 : K) :
+    ctor_C11_C13_C33_C44_C66 C11 C13 C33 C44 ((C11 - C12) / 2) = ctor_C11_C12_C13_C33_C44 C11 C12 C13 C33 C44 ∧
+    ctor_C12_C13_C33_C44_C66 C12 C13 C33 C44 ((C11 - C12) / 2) = ctor_C11_C12_C13_C33_C44 C11 C12 C13 C33 C44 := by
+  constructor <;>
+    (simp only [ctor_C11_C13_C33_C44_C66, ctor_C12_C13_C33_C44_C66, ctor_C11_C12_C13_C33_C44, Nat.cast_ofNat]
+     congr 1 <;> (try ring_nf) <;> (congr 1 <;> ring))
+
+/-- the alternative input combinations of `rhombohedral` (and an absent `C15`) describe the same tensor. -/
+theorem rhombohedral_inputs_agree (C11 C12 C13 C14 C15 C33 C44 : K) :
+    ctor_C11_C13_C14_C15_C33_C44_C66 C11 C13 C14 C15 C33 C44 ((C11 - C12) / 2)
+      = ctor_C11_C12_C13_C14_C15_C33_C44 C11 C12 C13 C14 C15 C33 C44 ∧
+    ctor_C12_C13_C14_C15_C33_C44_C66 C12 C13 C14 C15 C33 C44 ((C11 - C12) / 2)
+      = ctor_C11_C12_C13_C14_C15_C33_C44 C11 C12 C13 C14 C15 C33 C44 ∧
+    ctor_C11_C12_C13_C14_C15_C33_C44_C66 C11 C12 C13 C14 C15 C33 C44 ((C11 - C12) / 2)
+      = ctor_C11_C12_C13_C14_C15_C33_C44 C11 C12 C13 C14 C15 C33 C44 ∧
+    ctor_C11_C12_C13_C14_C33_C44 C11 C12 C13 C14 C33 C44
+      = ctor_C11_C12_C13_C14_C15_C33_C44 C11 C12 C13 C14 0 C33 C44 := by
+  refine ⟨?_, ?_, ?_, ?_⟩ <;>
+    (simp only [ctor_C11_C13_C14_C15_C33_C44_C66, ctor_C12_C13_C14_C15_C33_C44_C66,
+       ctor_C11_C12_C13_C14_C15_C33_C44_C66, ctor_C11_C12_C13_C14_C33_C44, ctor_C11_C12_C13_C14_C15_C33_C44,
+       Nat.cast_ofNat, Nat.cast_zero, neg_zero]
+     try (have e1 : C11 - 2 * ((C11 - C12) / 2) = C12 := by ring
+          have e2 : 2 * ((C11 - C12) / 2) + C12 = C11 := by ring
+          simp only [e1, e2]))
+
+/-! ## the fifteen isotropic modulus pairs return `(λ+2μ, λ, μ)` for `0 ≤ ν < ½`, `μ > 0`
+    (`0 ≤ λ`, `0 < μ`: see `iso_nu_range`); `E, ν, K, M` are the textbook moduli `isoE … isoM` -/
+
+section iso
+variable (lam mu : K) (hl : 0 ≤ lam) (hm : 0 < mu)
+include hl hm
+
+/-- `0 ≤ ν < ½` says exactly `0 ≤ λ` (given `μ > 0`). -/
+theorem iso_range : (0 ≤ isoNu lam mu ∧ isoNu lam mu < 1 / 2) ∧ 0 < isoE lam mu ∧ 0 < isoK lam mu ∧ 0 < isoM lam mu :=
+  ⟨(iso_nu_range lam mu hm (by positivity)).mpr hl, by unfold isoE; positivity, by unfold isoK; positivity,
+   by unfold isoM; positivity⟩
+
+theorem iso_pair_C11_C12 : ctor_C11_C12 (isoM lam mu) lam = isoC lam mu := by iso_close
+theorem iso_pair_C11_C44 : ctor_C11_C44 (isoM lam mu) mu = isoC lam mu := by iso_close
+theorem iso_pair_C11_K : ctor_C11_K (isoM lam mu) (isoK lam mu) = isoC lam mu := by iso_close
+theorem iso_pair_C12_C44 : ctor_C12_C44 lam mu = isoC lam mu := by iso_close
+theorem iso_pair_C12_K : ctor_C12_K lam (isoK lam mu) = isoC lam mu := by iso_close
+theorem iso_pair_C44_K : ctor_C44_K mu (isoK lam mu) = isoC lam mu := by iso_close
+
+theorem iso_pair_C11_nu : ctor_C11_nu (isoM lam mu) (isoNu lam mu) = isoC lam mu := by
+  obtain ⟨hs, hm', h3, h4, e1, e2, e3⟩ := iso_aux lam mu hl hm
+  show isoList _ _ _ = isoList _ _ _
+  simp only [Nat.cast_ofNat, Nat.cast_one, e1, e3, isoM]
+  congr 1 <;> (field_simp <;> ring)
+
+theorem iso_pair_C44_nu : ctor_C44_nu mu (isoNu lam mu) = isoC lam mu := by
+  obtain ⟨hs, hm', h3, h4, e1, e2, e3⟩ := iso_aux lam mu hl hm
+  show isoList _ _ _ = isoList _ _ _
+  simp only [Nat.cast_ofNat, Nat.cast_one, e1, e3, isoM]
+  unfold isoNu
+  congr 1 <;> (field_simp <;> ring)
+
+theorem iso_pair_E_nu : ctor_E_nu (isoE lam mu) (isoNu lam mu) = isoC lam mu := by
+  obtain ⟨hs, hm', h3, h4, e1, e2, e3⟩ := iso_aux lam mu hl hm
+  show isoList _ _ _ = isoList _ _ _
+  simp only [Nat.cast_ofNat, Nat.cast_one, e1, e2, e3, isoE]
+  unfold isoNu
+  congr 1 <;> (field_simp <;> ring)
+
+theorem iso_pair_nu_K : ctor_nu_K (isoNu lam mu) (isoK lam mu) = isoC lam mu := by
+  obtain ⟨hs, hm', h3, h4, e1, e2, e3⟩ := iso_aux lam mu hl hm
+  show isoList _ _ _ = isoList _ _ _
+  simp only [Nat.cast_ofNat, Nat.cast_one, e1, e2, e3, isoK]
+  unfold isoNu
+  congr 1 <;> (field_simp <;> ring)
+
+theorem iso_pair_C44_E : ctor_C44_E mu (isoE lam mu) = isoC lam mu := by
+  obtain ⟨hs, hm', h3, h4, e1, e2, e3⟩ := iso_aux lam mu hl hm
+  have e : 3 * mu - isoE lam mu = mu * mu / (lam + mu) := by unfold isoE; field_simp; ring
+  show isoList _ _ _ = isoList _ _ _
+  simp only [Nat.cast_ofNat, Nat.cast_one, e]
+  unfold isoE
+  congr 1 <;> (field_simp <;> ring)
+
+theorem iso_pair_E_K : ctor_E_K (isoE lam mu) (isoK lam mu) = isoC lam mu := by
+  obtain ⟨hs, hm', h3, h4, e1, e2, e3⟩ := iso_aux lam mu hl hm
+  have e : 9 * isoK lam mu - isoE lam mu = (3 * lam + 2 * mu) * (3 * lam + 2 * mu) / (lam + mu) := by
+    unfold isoE isoK; field_simp; ring
+  show isoList _ _ _ = isoList _ _ _
+  simp only [Nat.cast_ofNat, Nat.cast_one, e]
+  unfold isoE isoK
+  congr 1 <;> (field_simp <;> ring)
+
+/-- `(λ, ν)`: needs `ν ≠ 0`, i.e. `λ > 0` (at `ν = 0` the pair `(0, 0)` does not determine `μ`). -/
+theorem iso_pair_C12_nu (hl' : 0 < lam) : ctor_C12_nu lam (isoNu lam mu) = isoC lam mu := by
+  obtain ⟨hs, hm', h3, h4, e1, e2, e3⟩ := iso_aux lam mu hl hm
+  have hl0 : lam ≠ 0 := hl'.ne'
+  show isoList _ _ _ = isoList _ _ _
+  simp only [Nat.cast_ofNat, Nat.cast_one, e3]
+  unfold isoNu
+  congr 1 <;> (field_simp <;> ring)
+
+/-- `(M, E)`: `S` is the square root taken by the code (`S*S = radicand`, `S ≥ 0`). -/
+theorem iso_pair_C11_E (S : K) (hS : S * S = ctor_C11_E_radicand0 (isoM lam mu) (isoE lam mu)) (hS0 : 0 ≤ S) :
+    ctor_C11_E (isoM lam mu) (isoE lam mu) S = isoC lam mu := by
+  obtain ⟨hs, hm', h3, h4, e1, e2, e3⟩ := iso_aux lam mu hl hm
+  have hS' : S = lam * (3 * lam + 4 * mu) / (lam + mu) := by
+    have h0 : 0 ≤ lam * (3 * lam + 4 * mu) / (lam + mu) := by positivity
+    apply (mul_self_inj hS0 h0).mp
+    rw [hS]; simp only [ctor_C11_E_radicand0, isoM, isoE, Nat.cast_ofNat]
+    field_simp; ring
+  subst hS'
+  show isoList _ _ _ = isoList _ _ _
+  simp only [isoE, isoM, Nat.cast_ofNat, Nat.cast_one]
+  congr 1 <;> (field_simp <;> ring)
+
+/-- `(λ, E)`: `R` is the square root taken by the code. -/
+theorem iso_pair_C12_E (R : K) (hR : R * R = ctor_C12_E_radicand0 lam (isoE lam mu)) (hR0 : 0 ≤ R) :
+    ctor_C12_E lam (isoE lam mu) R = isoC lam mu := by
+  obtain ⟨hs, hm', h3, h4, e1, e2, e3⟩ := iso_aux lam mu hl hm
+  have hR' : R = (3 * lam * lam + 4 * lam * mu + 2 * mu * mu) / (lam + mu) := by
+    have h0 : 0 ≤ (3 * lam * lam + 4 * lam * mu + 2 * mu * mu) / (lam + mu) := by positivity
+    apply (mul_self_inj hR0 h0).mp
+    rw [hR]; simp only [ctor_C12_E_radicand0, isoE, Nat.cast_ofNat]
+    field_simp; ring
+  subst hR'
+  show isoList _ _ _ = isoList _ _ _
+  simp only [isoE, Nat.cast_ofNat, Nat.cast_one]
+  congr 1 <;> (field_simp <;> ring)
+
+end iso
+
+/-- non-vacuity of the root hypotheses: `λ = 1`, `μ = 1` gives `M = 3`, `E = 5/2`, radicand `49/4`, `S = 7/2`. -/
+example : (7 / 2 : ℚ) * (7 / 2) = ctor_C11_E_radicand0 (isoM (1 : ℚ) 1) (isoE 1 1) ∧ (0 : ℚ) ≤ 7 / 2 := by
+  constructor
+  · simp [ctor_C11_E_radicand0, isoM, isoE]; norm_num
+  · norm_num
+
+/-- the aliases `M`, `lambda`, `mu` run the same branches. -/
+theorem iso_alias (a b r : K) :
+    ctor_M_E a b r = ctor_C11_E a b r ∧ ctor_lambda_E a b r = ctor_C12_E a b r ∧ ctor_mu_E a b = ctor_C44_E a b ∧
+    ctor_M_lambda a b = ctor_C11_C12 a b ∧ ctor_lambda_mu a b = ctor_C12_C44 a b ∧ ctor_mu_K a b = ctor_C44_K a b ∧
+    ctor_M_nu a b = ctor_C11_nu a b ∧ ctor_lambda_nu a b = ctor_C12_nu a b ∧ ctor_mu_nu a b = ctor_C44_nu a b :=
+  ⟨rfl, rfl, rfl, rfl, rfl, rfl, rfl, rfl, rfl⟩
+
+/-! ## normalising to a crystal system is idempotent (the generated formulas; `s`, `s'` = 6x6 inverses) -/
+
+theorem normalized_idem_triclinic (c : M6 K) :
+    normalized_triclinic (m6 (normalized_triclinic c)) = normalized_triclinic c := by
+  rw [m6_normalized_triclinic]
+
+theorem normalized_idem_cubic (c : M6 K) : normalized_cubic (m6 (normalized_cubic c)) = normalized_cubic c :=
+  norm_fix_cubic _ _ _
+
+theorem normalized_idem_hexagonal (c : M6 K) :
+    normalized_hexagonal (m6 (normalized_hexagonal c)) = normalized_hexagonal c := norm_fix_hexagonal _ _ _ _ _
+
+theorem normalized_idem_tetragonal (c : M6 K) :
+    normalized_tetragonal (m6 (normalized_tetragonal c)) = normalized_tetragonal c :=
+  norm_fix_tetragonal _ _ _ _ _ _ _
+
+theorem normalized_idem_rhombohedral (c : M6 K) :
+    normalized_rhombohedral (m6 (normalized_rhombohedral c)) = normalized_rhombohedral c :=
+  norm_fix_rhombohedral _ _ _ _ _ _ _
+
+theorem normalized_idem_orthorhombic (c : M6 K) :
+    normalized_orthorhombic (m6 (normalized_orthorhombic c)) = normalized_orthorhombic c :=
+  norm_fix_orthorhombic _ _ _ _ _ _ _ _ _
+
+/-- isotropic: `s` is whatever inverse was used the first time, `s'` a (left) inverse of the normalised 6x6;
+    the Hill averages of the first pass must be non-zero (otherwise the normalised matrix has no inverse). -/
+theorem normalized_idem_isotropic (c s s' : M6 K) (hmu : shearHill c s ≠ 0) (hK : bulkHill c s ≠ 0)
+    (hinv : ∀ a d, ∑ b, s' a b * m6 (normalized_isotropic c s) b d = if a = d then 1 else 0) :
+    normalized_isotropic (m6 (normalized_isotropic c s)) s' = normalized_isotropic c s :=
+  norm_fix_isotropic _ _ hmu hK s' hinv
+
+example : shearHill (m6 (ctor_mu_K (2 : ℚ) 3)) (isoS 2 3) ≠ 0 ∧ bulkHill (m6 (ctor_mu_K (2 : ℚ) 3)) (isoS 2 3) ≠ 0 := by
+  obtain ⟨h1, h2⟩ := hill_of_iso (2 : ℚ) 3 (by norm_num) (by norm_num)
+  rw [h1, h2]; constructor <;> norm_num
+
+/-- `np.isclose(x, x)` holds for non-negative tolerances. -/
+theorem isclose_self (rt at' x : K) (h1 : 0 ≤ rt) (h2 : 0 ≤ at') : isclose rt at' x x = true := by
+  simp only [isclose, sub_self, decide_eq_true_eq]
+  have h0 : absK (0 : K) = 0 := by simp [absK]
+  have hx : 0 ≤ absK x := by
+    unfold absK; split
+    · rename_i h; simp only [Nat.cast_zero] at h; linarith
+    · rename_i h; simp only [Nat.cast_zero, not_lt] at h; exact h
+  rw [h0]; positivity
+
+/-- a normalised tensor passes `is_normal` for its system (formula level: the comparison of
+    `n = normalized(c)` with `normalized(n)` entry by entry). -/
+theorem is_normal_of_normalized (rt at' : K) (h1 : 0 ≤ rt) (h2 : 0 ≤ at') (c : M6 K) (a b : Fin 6) :
+    isclose rt at' (m6 (normalized_cubic c) a b) (m6 (normalized_cubic (m6 (normalized_cubic c))) a b) = true ∧
+    isclose rt at' (m6 (normalized_hexagonal c) a b)
+      (m6 (normalized_hexagonal (m6 (normalized_hexagonal c))) a b) = true ∧
+    isclose rt at' (m6 (normalized_tetragonal c) a b)
+      (m6 (normalized_tetragonal (m6 (normalized_tetragonal c))) a b) = true ∧
+    isclose rt at' (m6 (normalized_rhombohedral c) a b)
+      (m6 (normalized_rhombohedral (m6 (normalized_rhombohedral c))) a b) = true ∧
+    isclose rt at' (m6 (normalized_orthorhombic c) a b)
+      (m6 (normalized_orthorhombic (m6 (normalized_orthorhombic c))) a b) = true ∧
+    isclose rt at' (m6 (normalized_triclinic c) a b)
+      (m6 (normalized_triclinic (m6 (normalized_triclinic c))) a b) = true := by
+  rw [normalized_idem_cubic, normalized_idem_hexagonal, normalized_idem_tetragonal, normalized_idem_rhombohedral,
+    normalized_idem_orthorhombic, normalized_idem_triclinic]
+  exact ⟨isclose_self _ _ _ h1 h2, isclose_self _ _ _ h1 h2, isclose_self _ _ _ h1 h2, isclose_self _ _ _ h1 h2,
+    isclose_self _ _ _ h1 h2, isclose_self _ _ _ h1 h2⟩
 
 end Atomman.C11
